@@ -684,7 +684,7 @@ def loads_section(rep, tier, seed, rng):
                            ("static", lambda e: e["alphadeg"] == 0)])
     n_static = len(events) - n_fext
     verdicts, results, problems = validate_trace(
-        "c18-trl", "Trace_ShellLoads", "CONSTANTS Tier = \"%s\"\nDev = {}\nTol = 38\nTolStatic = 30\n" % tier, events,
+        "c18-trl", "Trace_ShellLoads", "CONSTANTS Tier = \"%s\"\nDev = {}\nTol = 38\nTolStatic = 30\nTolNorm = 44\n" % tier, events,
         timeout=3000, nproc=10 if tier == "quick" else 16)
     for res in results:
         rep.add_tlc("Trace_ShellLoads", res)
@@ -810,7 +810,7 @@ def check_selftests(rep, events, verdicts, name):
 
 TRACE_OF = dict(partition=("Trace_ShellPartition", "CONSTANTS Tier = \"%s\"\nDev = {}\n"),
                 geometry=("Trace_ShellGeometry", "CONSTANTS Tier = \"%s\"\nDev = {}\nTol = 40\n"),
-                loads=("Trace_ShellLoads", "CONSTANTS Tier = \"%s\"\nDev = {}\nTol = 38\nTolStatic = 30\n"))
+                loads=("Trace_ShellLoads", "CONSTANTS Tier = \"%s\"\nDev = {}\nTol = 38\nTolStatic = 30\nTolNorm = 44\n"))
 
 
 def run(tier, seed, build):
@@ -859,7 +859,7 @@ def run(tier, seed, build):
         "exact shape functions only on the quarter-turn lattice x = pL/2, theta = q*90deg; forces elsewhere, the force-controlled "
         "torque ring integral and the static residual are OBSERVATIONS (package's own uvw / solve output judged by the trace spec)",
         "tolerances: exact equality for partition book-keeping; 2^-40 of the shell's length scale for derived geometry; "
-        "2^-38 of the term scale for calc_fext; 2^-30 of the row scale for the static residual; pi enclosed within 1e-40",
+        "2^-38 of the term scale for calc_fext; 2^-30 of the row scale or 2^-44 of the system's norm scale (backward stability of the direct solve) for the static residual; pi enclosed within 1e-40",
         "prescribed sets other than those the API flags produce ({2},{0,2},{1,2},{0,1,2}) are exercised by setting the public "
         "list excluded_dofs directly; pdLA=False is refused by the package (NotImplementedError) and the module says so",
         "axial line load and displacement control are alternatives (pdC=True cases carry no Nxxtop/Fc); tLAdeg = 0",
